@@ -215,6 +215,15 @@ def run(prop, tier, spec):
     if foreign:
         res["inconclusive"].append({"error": "counter accessed outside the functions Engine W encodes (not covered by the "
                                     "weak-memory model; see the funnel harnesses): " + "; ".join(foreign)})
+    # the encoder must give the known verdicts on the litmus set before its answers are used
+    try:
+        import litmus
+        lb = litmus.run()
+    except Exception as e:
+        lb = [f"{type(e).__name__}: {e}"]
+    if lb:
+        res["inconclusive"].append({"error": "RC11 encoder self-test failed: " + "; ".join(lb)})
+    res["queries"] += 2 * 7
     scs = family(prop, tier)
     tmo = 120000 if tier == "quick" else 600000
     jobs = [(i, n, t, s, j, tmo) for i, (n, t, s, j) in enumerate(scs)]
@@ -266,6 +275,7 @@ def run(prop, tier, spec):
         "mir_dump_cmd": mircmd,
         "functions_symbolically_executed": sorted(set(p["fn"] for ps in templates.values() for p in ps)),
         "templates": {k: mirsym.describe(v) for k, v in templates.items()},
+        "encoder_self_test": "7 litmus variants of the release/acquire protocol (wmm/litmus.py): " + ("all verdicts as expected" if not lb else "FAILED"),
         "counter_access_sites": [f"{a}: {b}" for a, b in sites],
         "scenarios": len(scs), "scenarios_hold": holds,
         "max_events": max([o.get("events") or 0 for o in outs] or [0]),
